@@ -2652,7 +2652,8 @@ class FileSet:
                 path = path[:split_index] + changed_part
         try:
             # Prepare the regex for the template, convert it to an exact match:
-            regex_string = "^" + path.format(**placeholder) + "$"
+            # (\Z instead of $, which also matches before a final newline)
+            regex_string = "^" + path.format(**placeholder) + r"\Z"
         except KeyError as err:
             raise UnknownPlaceholderError(self.name, err.args[0])
         except ValueError as err:
